@@ -273,7 +273,8 @@ def obligations(pid, tier):
                dict(rot="-23", min_points=1, scales=(1.0, 1.5), two_objects=True, sym_points=1)]
     else:
         fr = [dict(rot=r, min_points=m, scales=sc, two_objects=t, sym_points=1) for r in ("0", "53", "-23")
-              for m in (0, 1, 2, 3) for sc in ((1.0, 1.0), (1.0, 1.5)) for t in (False, True)]
+              for m in (0, 1, 2, 3) for sc in ((1.0, 1.0), (1.0, 1.5)) for t in (False, True)
+              if not t or (r == "-23" and sc == (1.0, 1.5))]  # two-object scenes: one rotation (run time)
         fr += [dict(rot="53", min_points=m, scales=(1.0, 1.5), two_objects=False, sym_points=2) for m in (1, 2, 3)]
     fr += [dict(rot="53", min_points=1, scales=(1.0, 1.6), two_objects=False, sym_points=1, shift=150.0)]
     if not quick:
